@@ -541,7 +541,11 @@ def combo_case(draw):
     for i in range(n):
         sch, wit = draw(st.sampled_from(COMBO_SCHEMAS))
         loc = main if draw(st.integers(0, 3)) else draw(st.sampled_from(["query", "header", "cookie"]))
-        params.append({"name": f"p{i}", "in": loc, "required": draw(st.integers(0, 3)) == 0, "schema": dict(sch), "witness": wit, "level": "operation", "ref": False})
+        name = f"p{i}"
+        others = [q["name"] for q in params if q["in"] != loc and not any(r["in"] == loc and r["name"] == q["name"] for r in params)]
+        if others and draw(st.integers(0, 2)) == 0:
+            name = draw(st.sampled_from(others))  # one name in two locations (`version` as a header and as a query parameter), each with its own `required`
+        params.append({"name": name, "in": loc, "required": draw(st.integers(0, 3)) == 0, "schema": dict(sch), "witness": wit, "level": "operation", "ref": False})
     path = "/t"
     if draw(st.booleans()):
         # a path value that needs quoting: every case built around the template must still carry a member of the enum
@@ -587,6 +591,16 @@ def check_combos(ctx: Ctx, inp) -> None:
         if (mode == GenerationMode.NEGATIVE) != (any_neg or special):
             ctx.disagree("case-label-differs-from-its-parts", f"case labelled {mode.value} but components {({k: v.value for k, v in comps.items()})} ({desc})", input=inp, case=summary)
             continue
+        if desc.startswith("Missing "):
+            data = meta.phase.data
+            owner = next((p for p in plan["params"] if p["in"] == data.parameter_location and p["name"] == data.parameter), None)
+            cont = c01.container_of(case, data.parameter_location) or {}
+            if owner is None or not owner["required"]:
+                ctx.disagree("combo:missing-case-for-a-parameter-that-is-not-required", f"{desc}: the {data.parameter_location} parameter {data.parameter!r} is {'optional' if owner else 'not declared'} there, yet the case is labelled negative; {summary}", input=inp, case=summary)
+            elif any(k.lower() == str(data.parameter).lower() for k in cont):
+                ctx.disagree("missing-case-still-has-the-parameter", f"{desc}: {dict(cont)!r}", input=inp, case=summary)
+            ctx.classes["combo:missing-case-judged"] += 1
+            continue
         if special:
             continue
         verdicts = {}
@@ -596,9 +610,9 @@ def check_combos(ctx: Ctx, inp) -> None:
             key = next((k for k in cont if k.lower() == p["name"].lower()), None)
             if key is None:
                 if p["required"]:
-                    missing_required.append(p["name"])
+                    missing_required.append(f"{p['in']}:{p['name']}")
                 continue
-            verdicts[p["name"]] = c01.lenient_valid(p["schema"], cont[key], dialect=dialect, root=root, loc=p["in"])
+            verdicts[f"{p['in']}:{p['name']}"] = c01.lenient_valid(p["schema"], cont[key], dialect=dialect, root=root, loc=p["in"])
         if mode == GenerationMode.POSITIVE:
             bad = [n for n, v in verdicts.items() if v is False]
             if bad or missing_required:
